@@ -197,7 +197,7 @@ func spanSpaces(html string) string {
 
 func runDiff(c *mon.Case) {
 	md.UnescapeHTML = defaultUnescape
-	per := c.Env.Pick(40, 400)
+	per := c.Env.Pick(100, 400)
 	for k := 0; k < per; k++ {
 		doc, kind := genDoc(c.Rand)
 		if why := comparable(doc); why != "" {
@@ -416,7 +416,7 @@ func compose(r *rand.Rand, depth int) piece {
 func runCompose(c *mon.Case) {
 	md.UnescapeHTML = html.UnescapeString
 	defer func() { md.UnescapeHTML = defaultUnescape }()
-	per := c.Env.Pick(30, 300)
+	per := c.Env.Pick(30, 200)
 	for k := 0; k < per; k++ {
 		p := compose(c.Rand, 2)
 		if len(p.ids) == 0 || len(p.md) > 4000 {
@@ -522,7 +522,7 @@ func runTotal(c *mon.Case) {
 		md.UnescapeHTML = html.UnescapeString
 	}
 	defer func() { md.UnescapeHTML = defaultUnescape }()
-	per := c.Env.Pick(100, 1000)
+	per := c.Env.Pick(100, 500)
 	for k := 0; k < per; k++ {
 		in, kind := totalInput(c)
 		c.Evals(1)
@@ -573,6 +573,7 @@ func Spec() *mon.Spec {
 			"Excluded from the differential generator because they are documented omissions: tabs, CR, setext underline shapes, link reference definition shapes (any ']:'), named entities other than lt gt amp apos nbsp Tab NewLine, trailing {...} on heading lines (Elvish's attribute extension).",
 			"Excluded because CommonMark 0.30 and 0.31.2 differ (confirmed against spec examples 354, 625, 626): non-ASCII characters that are not letters (0.31 counts symbols as punctuation), HTML comments other than '<!-- words -->', HTML tag names search/source.",
 			"Excluded because serialisation differs deliberately (html.go: only a fixed ASCII set is percent-encoded in URLs): destinations with non-ASCII or other characters that the reference percent-encodes; spec examples whose expected HTML contains %C2/%C3.",
+			"Not compared because goldmark v1.4.13 itself deviates from the spec or reference implementations differ (each class seen as a disagreement and triaged against the spec text; see RefReliable in oracle.go): emphasis delimiters in a paragraph with two or more '[' and an inline link; an empty list item followed by a blank line or by a list; HTML blocks of types 1-5 inside containers or running to the end of their container; whitespace-only lines together with code blocks; two or more backslashes at a line end; an escape at the start of the line after a hard break; empty link titles; a backslash-escaped '&'; character references inside autolinks and references to control / non-ASCII characters inside destinations; entities, backslashes, raw HTML or line breaks inside image descriptions; '>' directly followed by an emphasis delimiter; lower-case <!declarations; unbalanced '(' in a destination; '<' inside a <destination>; character references on fence lines; a tag whose '>' or '/>' starts the next line; </textarea.",
 			"Raw control characters (including U+0000, which the spec replaces by U+FFFD) are not generated in the differential phase.",
 			"An endless loop without output is only detected by the framework watchdog (inconclusive); the floor all_total_cases_finished then makes the run exit 2.",
 		},
@@ -584,14 +585,14 @@ func Spec() *mon.Spec {
 			pieces = basePieces()
 		},
 		Phases: []mon.Phase{
-			{Name: "spec", Quick: 2 * len(examples), Thorough: 2 * len(examples), Run: runSpec, Timeout: 30 * time.Second},
-			{Name: "diff", Quick: 2000, Thorough: 6000, Run: runDiff, Timeout: 60 * time.Second},
-			{Name: "compose", Quick: 400, Thorough: 1200, Run: runCompose, Timeout: 60 * time.Second},
-			{Name: "total", Quick: 1600, Thorough: 6000, Run: runTotal, Timeout: 60 * time.Second},
+			{Name: "spec", Quick: 2 * len(examples), Thorough: 2 * len(examples), Run: runSpec, Timeout: 300 * time.Second},
+			{Name: "diff", Quick: 2000, Thorough: 4000, Run: runDiff, Timeout: 300 * time.Second},
+			{Name: "compose", Quick: 400, Thorough: 1200, Run: runCompose, Timeout: 300 * time.Second},
+			{Name: "total", Quick: 1600, Thorough: 4000, Run: runTotal, Timeout: 300 * time.Second},
 		},
 		Finish: func(e *mon.Env) {
 			if e.Counter("total_started") == e.Counter("total_finished") && e.Counter("total_started") > 0 {
-				want := int64(e.Pick(1600*100, 6000*1000))
+				want := int64(e.Pick(1600*100, 4000*500))
 				if e.Counter("total_finished") == want {
 					e.Count("all_total_cases_finished", 1)
 				}
@@ -599,11 +600,25 @@ func Spec() *mon.Spec {
 		},
 		Floors: map[string]int{
 			"all_total_cases_finished": 1,
-			"spec_supported":           900,
-			"agree":                    15000,
+			"spec_supported":           1000,
+			"agree":                    25000,
 			"compositions":             3000,
-			"compositions_nested":      500,
-			"distinct_nontrivial":      50000,
+			"compositions_nested":      1500,
+			"distinct_nontrivial":      60000,
+			"seen_Emphasis":            5000,
+			"seen_StrongEmphasis":      4000,
+			"seen_Link":                4000,
+			"seen_Image":               1200,
+			"seen_CodeSpan":            4000,
+			"seen_Autolink":            2500,
+			"seen_RawHTML":             4000,
+			"seen_HTMLBlock":           2500,
+			"seen_CodeBlock":           3500,
+			"seen_Blockquote":          3500,
+			"seen_BulletList":          2500,
+			"seen_OrderedList":         1500,
+			"seen_HardLineBreak":       1500,
+			"seen_nested_containers":   1500,
 		},
 	}
 }
